@@ -5,7 +5,7 @@
    functional.py, nn/functional.py, the listed methods of tensor.py and Dropout.forward".                        *)
 From Coq Require Import List Bool Arith ZArith String.
 Import ListNotations.
-From SG Require Import IR.Effects Proofs.EffectsProofs Gen.GenEffects.
+From SG Require Import IR.Effects Proofs.EffectsProofs Gen.GenEffects Proofs.C11Proofs.
 Open Scope string_scope.
 
 (* ---- the general theorem (all programs, all heaps, overlapping arguments, all control-flow paths) ---------- *)
@@ -17,34 +17,9 @@ Theorem analysis_sound :
     (forall l, l < next h -> (forall pi, In pi (f_writable fd) -> ~ In l (nth pi argl [])) -> cont h' l = cont h l)
     /\ (forall l, In l ret -> next h <= l \/ exists pi, In pi (sget (summaries p) fi) /\ In l (nth pi argl []))
     /\ next h <= next h'.
-Proof. exact analysis_sound_full. Qed.
+Proof. exact analysis_sound_pf. Qed.
 Goal True. idtac "ASSUMPTIONS analysis_sound". Abort.
 Print Assumptions analysis_sound.
-
-(* ---- the generated program passes the analysis ---------------------------------------------------------- *)
-Lemma program_ok : ok_prog program = true.
-Proof. vm_compute. reflexivity. Qed.
-
-Definition named (names : list string) (fd : fundef) : bool := smemb (f_name fd) names.
-
-Lemma pure_functions_have_no_writable :
-  forallb (fun fd => if named (kernel_names ++ wrapper_names ++ initialiser_names ++ layer_names ++
-                                ["tensor.Tensor.detach"; "tensor.Tensor.clone"; "tensor.Tensor.zero_"]) fd
-                     then match f_writable fd with [] => true | _ => false end else true) program = true.
-Proof. vm_compute. reflexivity. Qed.
-
-Lemma named_no_writable names :
-  forallb (fun fd => if named names fd then match f_writable fd with [] => true | _ => false end else true) program = true ->
-  forall fi fd, nth_error program fi = Some fd -> named names fd = true -> f_writable fd = [].
-Proof.
-  intros H fi fd Hfd Hn. rewrite forallb_forall in H. specialize (H fd (nth_error_In _ _ Hfd)).
-  rewrite Hn in H. destruct (f_writable fd); [reflexivity|discriminate].
-Qed.
-
-Lemma named_app a b fd : named a fd = true -> named (a ++ b) fd = true.
-Proof. unfold named, smemb. rewrite existsb_app. intro H. rewrite H. reflexivity. Qed.
-Lemma named_app_r a b fd : named b fd = true -> named (a ++ b) fd = true.
-Proof. unfold named, smemb. rewrite existsb_app. intro H. rewrite H. apply orb_true_r. Qed.
 
 (* every kernel of cpu_ops.py / conv_tools.py: for all heaps and (overlapping) arguments, on every control-flow
    path, the bytes of every storage that existed before the call — in particular of every input — are unchanged *)
@@ -53,11 +28,7 @@ Theorem kernels_pure :
   forall o fuel argl h h' ret, List.length argl <= f_nparams fd ->
     run o program fuel fd argl h = Some (h', ret) ->
     forall l, l < next h -> cont h' l = cont h l.
-Proof.
-  intros fi fd Hfd Hk o fuel argl h h' ret Hlen Hrun.
-  apply (EffectsProofs.analysis_sound program program_ok o fuel fi fd argl h h' ret Hfd Hlen); [|exact Hrun].
-  apply (named_no_writable _ pure_functions_have_no_writable fi fd Hfd). apply named_app. exact Hk.
-Qed.
+Proof. exact kernels_pure_pf. Qed.
 Goal True. idtac "ASSUMPTIONS kernels_pure". Abort.
 Print Assumptions kernels_pure.
 
@@ -69,38 +40,20 @@ Theorem forward_wrappers_pure :
   forall o fuel argl h h' ret, List.length argl <= f_nparams fd ->
     run o program fuel fd argl h = Some (h', ret) ->
     forall l, l < next h -> cont h' l = cont h l.
-Proof.
-  intros fi fd Hfd Hk o fuel argl h h' ret Hlen Hrun.
-  apply (EffectsProofs.analysis_sound program program_ok o fuel fi fd argl h h' ret Hfd Hlen); [|exact Hrun].
-  apply (named_no_writable _ pure_functions_have_no_writable fi fd Hfd). apply named_app_r. exact Hk.
-Qed.
+Proof. exact forward_wrappers_pure_pf. Qed.
 Goal True. idtac "ASSUMPTIONS forward_wrappers_pure". Abort.
 Print Assumptions forward_wrappers_pure.
 
-(* every backward closure: the only pre-existing storages whose bytes may change are those bound to its
-   writable parameters, and these are exactly `<child>._grad` buffers (never `.data`, never the result's buffer) *)
-Lemma closure_writables_are_grad_buffers :
-  forallb (fun '(f, ws) => forallb (fun w => ends_with w "._grad") ws) writable_names = true /\
-  forallb (fun fd => if named closure_names fd then smemb (f_name fd) (map fst writable_names) else true) program = true.
-Proof. vm_compute. split; reflexivity. Qed.
-
+(* every backward closure of functional.py / nn/functional.py: the only pre-existing storages whose bytes may change are
+   those bound to its writable parameters, and these are `<child>._grad` buffers of the wrapper's children only
+   (never a `.data`, never the result's own buffer, never the saved forward data) *)
 Theorem closures_write_only_grad_buffers :
   forall fi fd, nth_error program fi = Some fd -> named closure_names fd = true ->
   (exists ws, In (f_name fd, ws) writable_names /\ forall w, In w ws -> ends_with w "._grad" = true) /\
   forall o fuel argl h h' ret, List.length argl <= f_nparams fd ->
     run o program fuel fd argl h = Some (h', ret) ->
     forall l, l < next h -> (forall pi, In pi (f_writable fd) -> ~ In l (nth pi argl [])) -> cont h' l = cont h l.
-Proof.
-  intros fi fd Hfd Hc. split.
-  - destruct closure_writables_are_grad_buffers as (H1 & H2).
-    rewrite forallb_forall in H2. specialize (H2 fd (nth_error_In _ _ Hfd)). rewrite Hc in H2.
-    unfold smemb in H2. apply existsb_exists in H2. destruct H2 as (n & Hin & Heq).
-    apply String.eqb_eq in Heq. apply in_map_iff in Hin. destruct Hin as ((f, ws) & Hf & Hin). cbn in Hf. subst n f.
-    exists ws. split; [exact Hin|].
-    rewrite forallb_forall in H1. specialize (H1 _ Hin). cbn in H1. rewrite forallb_forall in H1. exact H1.
-  - intros o fuel argl h h' ret Hlen Hrun.
-    exact (proj1 (analysis_sound_full program program_ok o fuel fi fd argl h h' ret Hfd Hlen Hrun)).
-Qed.
+Proof. exact closures_write_only_grad_buffers_pf. Qed.
 Goal True. idtac "ASSUMPTIONS closures_write_only_grad_buffers". Abort.
 Print Assumptions closures_write_only_grad_buffers.
 
@@ -116,17 +69,7 @@ Theorem seed_not_aliased :
     forall o fuel argl h h' ret, List.length argl <= f_nparams fd ->
       run o program fuel fd argl h = Some (h', ret) ->
       forall l, l < next h -> ~ In l (nth g argl []) -> cont h' l = cont h l.
-Proof.
-  destruct (find_fun program "tensor.Tensor.backward") as [[fi fd]|] eqn:E; [|vm_compute in E; discriminate].
-  assert (Hw : exists g, f_writable fd = [g] /\ nth_error backward_layout g = Some "self._grad").
-  { vm_compute in E. inversion E; subst fd. cbn [f_writable]. eexists. split; reflexivity. }
-  destruct Hw as (g & Hw & Hg).
-  exists fi, fd, g. split; [reflexivity|]. split; [exact Hw|]. split; [exact Hg|]. split; [vm_compute; reflexivity|].
-  intros o fuel argl h h' ret Hlen Hrun l Hl Hnot.
-  pose proof (find_fun_nth _ _ _ _ E) as Hfd.
-  apply (proj1 (analysis_sound_full program program_ok o fuel fi fd argl h h' ret Hfd Hlen Hrun)); [exact Hl|].
-  rewrite Hw. intros pi [Hpi|[]]. subst pi. exact Hnot.
-Qed.
+Proof. exact seed_not_aliased_pf. Qed.
 Goal True. idtac "ASSUMPTIONS seed_not_aliased". Abort.
 Print Assumptions seed_not_aliased.
 
@@ -138,16 +81,7 @@ Theorem clone_detach_fresh :
     forall o fuel argl h h' ret, List.length argl <= f_nparams fd ->
       run o program fuel fd argl h = Some (h', ret) ->
       forall l, In l ret -> next h <= l.
-Proof.
-  intros name Hin.
-  assert (Hro : ret_owned program name = true).
-  { cbn in Hin. destruct Hin as [<-|[<-|[<-|[<-|[]]]]]; vm_compute; reflexivity. }
-  unfold ret_owned in Hro. destruct (find_fun program name) as [[fi fd]|] eqn:E; [|discriminate].
-  exists fi, fd. split; [reflexivity|].
-  intros o fuel argl h h' ret Hlen Hrun.
-  apply (owned_result_fresh program program_ok o fuel fi fd argl h h' ret (find_fun_nth _ _ _ _ E) Hlen); [|exact Hrun].
-  destruct (sget (summaries program) fi); [reflexivity|discriminate].
-Qed.
+Proof. exact clone_detach_fresh_pf. Qed.
 Goal True. idtac "ASSUMPTIONS clone_detach_fresh". Abort.
 Print Assumptions clone_detach_fresh.
 
@@ -157,13 +91,7 @@ Print Assumptions clone_detach_fresh.
 Theorem documented_mutators :
   (forall r, In r mutator_census -> exists c, row_category r = Some c) /\
   documented_all_present mutator_census = true.
-Proof.
-  split.
-  - assert (H : census_documented mutator_census = true) by (vm_compute; reflexivity).
-    unfold census_documented in H. rewrite forallb_forall in H.
-    intros r Hr. specialize (H r Hr). destruct (row_category r) as [c|]; [exists c; reflexivity|discriminate].
-  - vm_compute. reflexivity.
-Qed.
+Proof. exact documented_mutators_pf. Qed.
 Goal True. idtac "ASSUMPTIONS documented_mutators". Abort.
 Print Assumptions documented_mutators.
 
